@@ -53,10 +53,17 @@ class SpecMixin(object):
 
   def havoc_heap(self, st, patterns, env=None):
     """patterns: 'Class.field' (whole array) | 'list' | 'dict' | '*' | 'name.field' (single object store)."""
+    if any(p in ('*', '*user', 'dict', 'list') for p in patterns):
+      self.drop_keypos(st)
     for p in patterns:
       if p == '*':
         for key in list(st.heap):
           st.heap[key] = fresh('H_%s_%s' % key, st.heap[key].sort())
+        continue
+      if p == '*user':
+        # arbitrary user code: everything except the framework-private fields (frame assumption) and fresh objects
+        from pyvc.opaque import havoc_preexisting
+        havoc_preexisting(self, st, keep=self.ctx.registry.private_fields)
         continue
       if p in ('list', 'dict'):
         for key in list(st.heap):
@@ -66,6 +73,8 @@ class SpecMixin(object):
       if p.startswith('list(') or p.startswith('dict('):
         which = p[:4]
         ref = self.eval_spec_value(st, p[5:-1], env)
+        if which == 'dict':
+          self.drop_keypos(st, ref)
         keys = [('list', 'len'), ('list', 'items')] if which == 'list' else [('dict', 'dom'), ('dict', 'val')]
         if which == 'dict':
           kl = self.dict_keys(st, ref)
@@ -117,7 +126,7 @@ class SpecMixin(object):
     """Heap keys a modifies list permits (coarse: object-specific patterns permit their whole array)."""
     ok = set()
     for p in patterns:
-      if p == '*':
+      if p in ('*', '*user'):
         return None
       if p in ('list', 'dict'):
         ok.update(k for k in [('list', 'len'), ('list', 'items'), ('dict', 'dom'), ('dict', 'val'), ('dict', 'keys')]
@@ -158,6 +167,10 @@ class SpecMixin(object):
       if n in st.env or kind is not None:
         st.env[n] = self.havoc_value(st, st.env.get(n), n, parse_kind(kind) if kind else None)
     self.havoc_heap(st, spec['modifies'])
+    # ghost counters may be advanced by contracted callees inside the body
+    for g, v in list(st.ghost.items()):
+      if isinstance(g, str) and not g.startswith('$') and not g.startswith('CONF.') and isinstance(v, VInt):
+        st.ghost[g] = VInt(fresh('hv_ghost_' + g, z3.IntSort()))
 
   def for_with_invariant(self, st, stmt, it, spec):
     label = self.loop_key(stmt)
@@ -252,16 +265,14 @@ class SpecMixin(object):
     if isinstance(it, VRef) and it.cls in ('list', 'tuple'):
       return it, lambda s, i: self.list_get(s, it, i)
     if isinstance(it, VRef) and it.cls in ('dict', 'set'):
-      if ('$keypos', it.t.get_id()) not in st.ghost:
-        st.axiom(self.dict_wf(st, it))
+      self.keypos_fn(st, it)
       keys = self.dict_keys(st, it)
       kk = getattr(it, 'keykind', None)
       return keys, lambda s, i: self.key_value(s, z3.Select(self.list_items(s, keys), i), kk)
     if isinstance(it, VIterView):
       base = it.base
       if it.how in ('items', 'values', 'keys') and isinstance(base, VRef) and base.cls == 'dict':
-        if ('$keypos', base.t.get_id()) not in st.ghost:
-          st.axiom(self.dict_wf(st, base))
+        self.keypos_fn(st, base)
         keys = self.dict_keys(st, base)
         kk = getattr(base, 'keykind', None)
         def elem(s, i, how=it.how):
@@ -465,9 +476,13 @@ class SpecMixin(object):
     s, it = rs[0]
     base_pc = len(s.pc)
     seq, elem_of = self.iter_as_list(s, it)
-    wf = s.pc[base_pc:]
-    for c in wf:
-      st.assume(c)
+    for c in s.pc[base_pc:]:
+      if c.get_id() in s.ax:
+        if c.get_id() not in st.ax:
+          st.axiom(c)
+      else:
+        st.assume(c)
+    self.lift_ghost(st, s)
     n = self.list_len(s, seq)
     i = fresh('q', z3.IntSort())
     saved_mode = self.spec_mode
@@ -518,7 +533,13 @@ class SpecMixin(object):
     for a in axioms:
       if a.get_id() not in st.ax:
         st.axiom(a)
+    self.lift_ghost(st, sub)
     return guards
+
+  def lift_ghost(self, st, sub):
+    for k, v in sub.ghost.items():
+      if isinstance(k, tuple) and k[0] == '$keypos' and k not in st.ghost:
+        st.ghost[k] = v
 
   # ------------------------------------------------------------------ spec evaluation
   def parse_spec(self, expr):
